@@ -1,10 +1,284 @@
 /-
-Model of the x86-64 encoder `src/exec/basejit/asm.rs`. (Port in progress.)
+Model of the x86-64 encoder `src/exec/basejit/asm.rs`.
+
+`X86` is an abstract instruction type with one constructor per emitter family of `asm.rs`
+(`emit_add_rm64_i32`/`emit_add_rm32_i32`/`emit_add_rm16_i16`/`emit_add_rm8_i8` = `addRmImm` at the four
+sizes, ...). `encode` gives exactly the bytes the Rust emitter pushes: `rex` is `emit_rex`, `modrm` is
+`emit_modrm` (ModRM, SIB and displacement).
+
+Immediates and displacements are `Int`s; an emitter taking an `i8`/`i16`/`i32`/`i64` writes the low
+1/2/4/8 bytes of the value (two's complement), and the `is_small` tests are made on the `Int` itself, so
+for values inside the Rust parameter type the bytes coincide with the Rust ones.
 -/
 import Hpbf.Cell
 
 namespace Hpbf
 namespace Asm
+
+/-- `asm.rs::Reg` (the discriminant is the hardware encoding). -/
+inductive Reg where
+  | rax | rcx | rdx | rbx | rsp | rbp | rsi | rdi
+  | r8 | r9 | r10 | r11 | r12 | r13 | r14 | r15
+  deriving Repr, DecidableEq, Inhabited
+
+/-- `reg as u8`. -/
+def Reg.code : Reg → Nat
+  | .rax => 0 | .rcx => 1 | .rdx => 2 | .rbx => 3 | .rsp => 4 | .rbp => 5 | .rsi => 6 | .rdi => 7
+  | .r8 => 8 | .r9 => 9 | .r10 => 10 | .r11 => 11 | .r12 => 12 | .r13 => 13 | .r14 => 14 | .r15 => 15
+
+/-- `Reg::enc`: the low three bits. -/
+def Reg.enc (r : Reg) : Nat := r.code % 8
+
+/-- `reg as u8 >> 3`: the bit that goes into the REX prefix. -/
+def Reg.hi (r : Reg) : Nat := r.code / 8
+
+/-- `asm.rs::RegMem`. -/
+inductive RegMem where
+  | reg (r : Reg)
+  | mem (base : Option Reg) (index : Option Reg) (scale : Nat) (disp : Int)
+  deriving Repr, DecidableEq, Inhabited
+
+/-- `asm.rs::JmpPred`. -/
+inductive JmpPred where
+  | below | equal | notEqual
+  deriving Repr, DecidableEq, Inhabited
+
+/-- `pred as u8`. -/
+def JmpPred.code : JmpPred → Nat
+  | .below => 0x02 | .equal => 0x04 | .notEqual => 0x05
+
+/-- Operand size of an emitter family (`rm8`/`rm16`/`rm32`/`rm64`). -/
+inductive Size where
+  | b8 | b16 | b32 | b64
+  deriving Repr, DecidableEq, Inhabited
+
+def Size.ofBits? : Nat → Option Size
+  | 8 => some .b8 | 16 => some .b16 | 32 => some .b32 | 64 => some .b64 | _ => none
+
+def Size.bits : Size → Nat
+  | .b8 => 8 | .b16 => 16 | .b32 => 32 | .b64 => 64
+
+/-- `C::BITS / 8`. -/
+def Size.bytes : Size → Nat
+  | .b8 => 1 | .b16 => 2 | .b32 => 4 | .b64 => 8
+
+/-- The 16-bit forms push the operand-size prefix `0x66` before the REX prefix. -/
+def Size.prefix : Size → List UInt8
+  | .b16 => [0x66] | _ => []
+
+/-- `wide` argument of `emit_rex`. -/
+def Size.wide : Size → Bool
+  | .b64 => true | _ => false
+
+/-- `isb` argument of `emit_rex`. -/
+def Size.isb : Size → Bool
+  | .b8 => true | _ => false
+
+/-- Abstract instructions: one constructor per emitter family of `asm.rs`. -/
+inductive X86 where
+  | push (r : Reg)                                   -- emit_push_r64
+  | pop (r : Reg)                                    -- emit_pop_r64
+  | addRmImm (sz : Size) (rm : RegMem) (imm : Int)   -- emit_add_rm64_i32 / rm32_i32 / rm16_i16 / rm8_i8
+  | addRmR (sz : Size) (rm : RegMem) (r : Reg)       -- emit_add_rm*_r*
+  | addRRm (sz : Size) (r : Reg) (rm : RegMem)       -- emit_add_r*_rm*
+  | subRmImm (rm : RegMem) (imm : Int)               -- emit_sub_rm64_i32
+  | subRmR (sz : Size) (rm : RegMem) (r : Reg)       -- emit_sub_rm*_r*
+  | subRRm (sz : Size) (r : Reg) (rm : RegMem)       -- emit_sub_r*_rm*
+  | imulRRmImm (r : Reg) (rm : RegMem) (imm : Int)   -- emit_mul_r64_rm64_i32
+  | imulRRm (r : Reg) (rm : RegMem)                  -- emit_mul_r64_rm64
+  | incRm (sz : Size) (rm : RegMem)                  -- emit_inc_rm*
+  | decRm (sz : Size) (rm : RegMem)                  -- emit_dec_rm*
+  | movRImm64 (r : Reg) (imm : Int)                  -- emit_mov_r64_i64
+  | movRmImm (sz : Size) (rm : RegMem) (imm : Int)   -- emit_mov_rm64_i32 / rm32_i32 / rm16_i16 / rm8_i8
+  | movRRm (sz : Size) (r : Reg) (rm : RegMem)       -- emit_mov_r64_rm64 / rm32 / rm16 / rm8 (zero extending)
+  | movRmR (sz : Size) (rm : RegMem) (r : Reg)       -- emit_mov_rm*_r*
+  | lea (r : Reg) (addr : RegMem)                    -- emit_lea
+  | cmpRRm (r : Reg) (rm : RegMem)                   -- emit_cmp_r64_rm64
+  | cmpRmImm8 (sz : Size) (rm : RegMem) (imm : Int)  -- emit_cmp_rm*_i8
+  | testRm8R8 (rm : RegMem) (r : Reg)                -- emit_test_rm8_r8
+  | jmpRel8 (off : Int)                              -- emit_jmp_rel8
+  | jccRel8 (p : JmpPred) (off : Int)                -- emit_jcc_rel8
+  | jccRel32 (p : JmpPred) (off : Int)               -- emit_jcc_rel32
+  | sarRmImm8 (rm : RegMem) (shift : Nat)            -- emit_sar_r64_i8
+  | ret                                              -- emit_ret
+  | callInd (rm : RegMem)                            -- emit_call_ind
+  deriving Repr, DecidableEq, Inhabited
+
+/-! ### Operand ranges -/
+
+/-- `v` is a value of the Rust type `i<bits>`. -/
+def fitsS (bits : Nat) (v : Int) : Bool :=
+  decide (-((2 : Int) ^ (bits - 1)) ≤ v) && decide (v < (2 : Int) ^ (bits - 1))
+
+/-- The displacement is an `i32` (and the scale a `u8`). -/
+def RegMem.fits : RegMem → Bool
+  | .reg _ => true
+  | .mem _ _ scale disp => decide (scale < 256) && fitsS 32 disp
+
+/-- Type of the immediate of the `*_i32`/`*_i16`/`*_i8` emitter of the given size. -/
+def Size.immBits : Size → Nat
+  | .b8 => 8 | .b16 => 16 | _ => 32
+
+/-- All operands are values of the parameter types of the Rust emitter. (`encode` is total anyway and
+writes the low bytes; the code generator uses `fits` to detect `i32` arithmetic that overflowed.) -/
+def X86.fits : X86 → Bool
+  | .push _ | .pop _ | .ret => true
+  | .addRmImm sz rm imm => rm.fits && fitsS sz.immBits imm
+  | .addRmR _ rm _ | .addRRm _ _ rm | .subRmR _ rm _ | .subRRm _ _ rm => rm.fits
+  | .subRmImm rm imm => rm.fits && fitsS 32 imm
+  | .imulRRmImm _ rm imm => rm.fits && fitsS 32 imm
+  | .imulRRm _ rm | .incRm _ rm | .decRm _ rm => rm.fits
+  | .movRImm64 _ imm => fitsS 64 imm
+  | .movRmImm sz rm imm => rm.fits && fitsS sz.immBits imm
+  | .movRRm _ _ rm | .movRmR _ rm _ | .lea _ rm | .cmpRRm _ rm | .testRm8R8 rm _ | .callInd rm => rm.fits
+  | .cmpRmImm8 _ rm imm => rm.fits && fitsS 8 imm
+  | .jmpRel8 off | .jccRel8 _ off => fitsS 8 off
+  | .jccRel32 _ off => fitsS 32 off
+  | .sarRmImm8 rm shift => rm.fits && decide (shift < 256)
+
+/-! ### Bytes -/
+
+def byte (n : Nat) : UInt8 := UInt8.ofNat n
+
+/-- `v as u8`. -/
+def u8 (v : Int) : UInt8 := UInt8.ofNat (v % 256).toNat
+
+/-- Low `n` bytes of the natural number `v`, little endian. -/
+def leNat : Nat → Nat → List UInt8
+  | 0, _ => []
+  | n + 1, v => UInt8.ofNat (v % 256) :: leNat n (v / 256)
+
+/-- `v.to_le_bytes()` for an `n`-byte two's complement integer. -/
+def le (n : Nat) (v : Int) : List UInt8 := leNat n (v % ((2 : Int) ^ (8 * n))).toNat
+
+/-- `(-128..=127).contains(&v)`. -/
+def isSmall (v : Int) : Bool := decide (-128 ≤ v) && decide (v ≤ 127)
+
+/-! ### `emit_rex` / `emit_modrm` -/
+
+def optHi : Option Reg → Nat
+  | some r => r.hi
+  | none => 0          -- `unwrap_or(Reg::Rax) as u8 >> 3`
+
+def optEnc : Option Reg → Nat
+  | some r => r.enc
+  | none => 0          -- `unwrap_or(Reg::Rax).enc()`
+
+/-- `[Rsp, Rbp, Rsi, Rdi].contains(&r)`: the registers whose low byte is only addressable with a REX
+prefix. -/
+def needsRexByte : Reg → Bool
+  | .rsp | .rbp | .rsi | .rdi => true
+  | _ => false
+
+/-- `emit_rex`. -/
+def rex (wide isb : Bool) (reg : Option Reg) (rm : RegMem) : List UInt8 :=
+  let b := 0x40 + (if wide then 8 else 0) + optHi reg * 4 +
+    (match rm with
+     | .reg r => r.hi
+     | .mem base idx _ _ => optHi idx * 2 + optHi base)
+  let forced := isb && (match reg with | some r => needsRexByte r | none => false)
+  if b != 0x40 || forced then [byte b] else []
+
+/-- `emit_modrm`: ModRM byte, SIB byte if needed, displacement. -/
+def modrm (reg : Option Reg) (op : Nat) (rm : RegMem) : List UInt8 :=
+  match rm with
+  | .reg r => [byte (0xc0 + op * 8 + optEnc reg * 8 + r.enc)]
+  | .mem base idx mul disp =>
+    let isSm := isSmall disp && base.isSome
+    let isZero := disp == 0 && (match base with | some b => b.enc != 5 | none => false)
+    -- `((!is_zero && base.is_some()) as u8) << (6 + !is_small as u32)`
+    let mode := if !isZero && base.isSome then (if isSm then 0x40 else 0x80) else 0
+    let m := mode + op * 8 + optEnc reg * 8
+    let head :=
+      match idx, base with
+      | none, some b =>
+        if b.enc != 4 then [byte (m + b.enc)]
+        else [byte (m + 4), byte (Nat.log2 mul * 64 + 4 * 8 + b.enc)]
+      | _, _ =>
+        [byte (m + 4),
+         byte (Nat.log2 mul * 64 + (match idx with | some i => i.enc | none => 4) * 8
+               + (match base with | some b => b.enc | none => 5))]
+    head ++ (if isZero then [] else if isSm then [u8 disp] else le 4 disp)
+
+/-- The common shape: `[0x66] rex opcode modrm tail`. -/
+def ins (pre : List UInt8) (wide isb : Bool) (reg : Option Reg) (opc : List UInt8) (op : Nat)
+    (rm : RegMem) (tail : List UInt8) : List UInt8 :=
+  pre ++ rex wide isb reg rm ++ opc ++ modrm reg op rm ++ tail
+
+/-- `emit_inc_rm*`. -/
+def encInc (sz : Size) (rm : RegMem) : List UInt8 :=
+  ins sz.prefix sz.wide sz.isb none [if sz == .b8 then 0xfe else 0xff] 0 rm []
+
+/-- `emit_dec_rm*`. -/
+def encDec (sz : Size) (rm : RegMem) : List UInt8 :=
+  ins sz.prefix sz.wide sz.isb none [if sz == .b8 then 0xfe else 0xff] 1 rm []
+
+/-- Immediate of the `0x81`/`0xc7` forms: `i32` at sizes 64 and 32, `i16` at size 16. -/
+def immFull (sz : Size) (imm : Int) : List UInt8 :=
+  match sz with
+  | .b16 => le 2 imm
+  | .b8 => [u8 imm]
+  | _ => le 4 imm
+
+/-- The machine code the Rust emitter of the family pushes. -/
+def encode : X86 → List UInt8
+  | .push r => rex false false none (.reg r) ++ [byte (0x50 + r.enc)]
+  | .pop r => rex false false none (.reg r) ++ [byte (0x58 + r.enc)]
+  | .addRmImm sz rm imm =>
+    if imm == -1 then encDec sz rm
+    else if imm == 1 then encInc sz rm
+    else match sz with
+      | .b8 => ins [] false true none [0x80] 0 rm [u8 imm]
+      | _ =>
+        if isSmall imm then ins sz.prefix sz.wide false none [0x83] 0 rm [u8 imm]
+        else ins sz.prefix sz.wide false none [0x81] 0 rm (immFull sz imm)
+  | .addRmR sz rm r => ins sz.prefix sz.wide sz.isb (some r) [if sz == .b8 then 0x00 else 0x01] 0 rm []
+  | .addRRm sz r rm => ins sz.prefix sz.wide sz.isb (some r) [if sz == .b8 then 0x02 else 0x03] 0 rm []
+  | .subRmImm rm imm =>
+    if imm == 1 then encDec .b64 rm
+    else if imm == -1 then encInc .b64 rm
+    else if isSmall imm then ins [] true false none [0x83] 5 rm [u8 imm]
+    else ins [] true false none [0x81] 5 rm (le 4 imm)
+  | .subRmR sz rm r => ins sz.prefix sz.wide sz.isb (some r) [if sz == .b8 then 0x28 else 0x29] 0 rm []
+  | .subRRm sz r rm => ins sz.prefix sz.wide sz.isb (some r) [if sz == .b8 then 0x2a else 0x2b] 0 rm []
+  | .imulRRmImm r rm imm =>
+    if isSmall imm then ins [] true false (some r) [0x6b] 0 rm [u8 imm]
+    else ins [] true false (some r) [0x69] 0 rm (le 4 imm)
+  | .imulRRm r rm => ins [] true false (some r) [0x0f, 0xaf] 0 rm []
+  | .incRm sz rm => encInc sz rm
+  | .decRm sz rm => encDec sz rm
+  | .movRImm64 r imm =>
+    let small := decide (-2147483648 ≤ imm) && decide (imm ≤ 2147483647)
+    let smallUns := decide (0 ≤ imm) && decide (imm ≤ 4294967295)
+    rex (!smallUns) false none (.reg r) ++
+      (if small || smallUns then [0xc7] ++ modrm none 0 (.reg r) ++ le 4 imm
+       else [byte (0xb8 + r.enc)] ++ le 8 imm)
+  | .movRmImm sz rm imm =>
+    ins sz.prefix sz.wide sz.isb none [if sz == .b8 then 0xc6 else 0xc7] 0 rm (immFull sz imm)
+  | .movRRm sz r rm =>
+    match sz with
+    | .b64 => ins [] true false (some r) [0x8b] 0 rm []
+    | .b32 => ins [] false false (some r) [0x8b] 0 rm []
+    | .b16 => ins [] false false (some r) [0x0f, 0xb7] 0 rm []
+    | .b8 => ins [] false false (some r) [0x0f, 0xb6] 0 rm []
+  | .movRmR sz rm r => ins sz.prefix sz.wide sz.isb (some r) [if sz == .b8 then 0x88 else 0x89] 0 rm []
+  | .lea r addr => ins [] true false (some r) [0x8d] 0 addr []
+  | .cmpRRm r rm => ins [] true false (some r) [0x3b] 0 rm []
+  | .cmpRmImm8 sz rm imm =>
+    ins sz.prefix sz.wide sz.isb none [if sz == .b8 then 0x80 else 0x83] 7 rm [u8 imm]
+  | .testRm8R8 rm r => ins [] false true (some r) [0x84] 0 rm []
+  | .jmpRel8 off => [0xeb, u8 off]
+  | .jccRel8 p off => [byte (0x70 + p.code), u8 off]
+  | .jccRel32 p off => [0x0f, byte (0x80 + p.code)] ++ le 4 off
+  | .sarRmImm8 rm shift => ins [] true false none [0xc1] 7 rm [byte shift]
+  | .ret => [0xc3]
+  | .callInd rm => [0xff] ++ modrm none 2 rm
+
+/-- Number of bytes of the encoding. -/
+def X86.size (x : X86) : Nat := (encode x).length
+
+/-- Encoding of an instruction sequence. -/
+def encodeAll (xs : List X86) : List UInt8 := xs.flatMap encode
 
 end Asm
 end Hpbf
